@@ -13,8 +13,11 @@ import (
 	"math"
 	"os"
 	"os/exec"
+	"runtime"
+	"runtime/debug"
 	"strconv"
 	"strings"
+	"syscall"
 	"time"
 
 	"github.com/brocaar/lorawan"
@@ -37,7 +40,45 @@ var (
 )
 
 // guard runs f on a private copy of in and reports panic / slow call / modified input.
+// roCopy returns a copy of in that lives in a page the process may only read (nil when that is not
+// possible): a decoder that writes to its input, even if it restores the bytes before returning, faults.
+func roCopy(in []byte) (buf []byte, release func()) {
+	if len(in) == 0 {
+		return nil, nil
+	}
+	n := (len(in) + 4095) &^ 4095
+	mem, err := syscall.Mmap(-1, 0, n, syscall.PROT_READ|syscall.PROT_WRITE, syscall.MAP_ANON|syscall.MAP_PRIVATE)
+	if err != nil {
+		return nil, nil
+	}
+	copy(mem, in)
+	if err := syscall.Mprotect(mem, syscall.PROT_READ); err != nil {
+		_ = syscall.Munmap(mem)
+		return nil, nil
+	}
+	return mem[:len(in):len(in)], func() { _ = syscall.Munmap(mem) }
+}
+
 func guard(s *cases.Set, name string, in []byte, f func(b []byte)) {
+	// first on read-only memory (writes fault), then on an ordinary copy that is compared afterwards
+	if ro, release := roCopy(in); ro != nil {
+		func() {
+			old := debug.SetPanicOnFault(true)
+			defer debug.SetPanicOnFault(old)
+			defer release()
+			defer func() {
+				if r := recover(); r != nil {
+					if e, ok := r.(runtime.Error); ok && strings.Contains(e.Error(), "fault") {
+						s.Fail(cases.GoFail{Key: fmt.Sprintf("writes-input:%s:%x", name, in), What: name + " writes to its input buffer (fault on a read-only page): " + e.Error(),
+							Replay: map[string]interface{}{"entry": name, "input": fmt.Sprintf("%x", in), "how": "input placed in a PROT_READ page"}})
+					}
+				}
+			}()
+			cases.Begin(fmt.Sprintf("%s:%x", name, in), map[string]interface{}{"entry": name, "input": fmt.Sprintf("%x", in)})
+			defer cases.End()
+			f(ro)
+		}()
+	}
 	buf := append([]byte{}, in...)
 	t0 := time.Now()
 	cases.Begin(fmt.Sprintf("%s:%x", name, in), map[string]interface{}{"entry": name, "input": fmt.Sprintf("%x", in)})
